@@ -112,11 +112,10 @@ fn c09_jobs(thorough: bool) -> Vec<Job> {
         )
     };
     if thorough {
-        for tpw in [1, 2] {
-            for mb in [1, 2] {
-                out.push(s(tpw, mb, vec![3, 3], 4));
-            }
-        }
+        out.push(s(1, 1, vec![3, 2], 4));
+        out.push(s(2, 2, vec![3, 2], 4));
+        out.push(s(2, 1, vec![3, 1], 4));
+        out.push(s(1, 2, vec![2, 2], 4));
     } else {
         out.push(s(1, 1, vec![3, 2], 3));
         out.push(s(2, 2, vec![3, 2], 3));
@@ -317,7 +316,11 @@ fn describe(prop: &str) -> (&'static str, &'static str, &'static str) {
 
 fn run(prop: &str, tier: &str) -> i32 {
     let thorough = tier == "thorough";
-    let js = jobs(prop, thorough);
+    let mut js = jobs(prop, thorough);
+    // development knob: explore only the configurations whose name contains the given text
+    if let Ok(only) = std::env::var("CW4_ONLY") {
+        js.retain(|j| j.name().contains(&only));
+    }
     if js.is_empty() {
         eprintln!("fam-cw4 does not serve {prop}");
         return 2;
